@@ -263,6 +263,43 @@ theorem core_to_go_preserves (i : E2EIn) (G : Goml.Go.GFile) (hG : compileGoPre 
     exact end_to_end_before_dce i.pipe b.mid.anf hA hpipe (fun _ => b.pre) (compileSim_of_fragGo hb hback)
       fuel eager hdef
 
+/-! ## Core → emitted Go, no hypotheses (DCE: `Dce.dce_file_preserves`) -/
+
+/-- the fragment of `core_to_emitted_go_preserves`: `InE2EFragment` ∧ the compiled file satisfies
+    `Dce.fileDceOK` — ONE decidable predicate (`Model/Pipeline.lean`), evaluated on every real
+    program by the tie -/
+def InEmitFragment (i : E2EIn) : Prop := inEmitFragment i = true
+
+instance (i : E2EIn) : Decidable (InEmitFragment i) := by
+  unfold InEmitFragment; infer_instance
+
+/-- **core_to_emitted_go_preserves.**  `compileGo i` is the WHOLE model pipeline: `mono`, `lift`,
+    `anf`, re-annotation, `go_file` including `eliminate_dead_vars` — the file `go_pprint` prints.
+    For every Core program in `InEmitFragment`, every definite `Sem` run of `main` (normal end or
+    panic; stdout, status, extern events) is the `Go.Sem` outcome of the emitted file for some fuel,
+    under either `go` schedule.  No hypotheses other than the decidable fragment: both parameters of
+    `end_to_end_partial` are discharged (`hcompile` by `GoCompileProps.compile_preserves_run`,
+    `hdce` by `Dce.dce_file_preserves`). -/
+theorem core_to_emitted_go_preserves (i : E2EIn) (G : Goml.Go.GFile) (hG : compileGo i = some G)
+    (hfrag : InEmitFragment i) (fuel : Nat) (eager : Bool) (hdef : Definite (run fuel i.pipe.prog "main" eager)) :
+    ∃ m, Goml.Go.runGo m G "main" eager = run fuel i.pipe.prog "main" eager := by
+  unfold InEmitFragment inEmitFragment at hfrag
+  simp only [Bool.and_eq_true] at hfrag
+  obtain ⟨he2e, hd⟩ := hfrag
+  cases hb : backStages i with
+  | none => rw [hb] at hd; cases hd
+  | some b =>
+    rw [hb] at hd
+    simp only [fragDce] at hd
+    have hspec := backStages_spec hb
+    have hGe : G = Dce.eliminateDeadVars b.pre := by
+      simp only [compileGo, hb, Option.map_some, Option.some.injEq] at hG
+      rw [← hG, hspec.2.2.2.2.2]
+    subst hGe
+    obtain ⟨m1, e1⟩ := core_to_go_preserves i b.pre (by simp [compileGoPre, hb]) he2e fuel eager hdef
+    obtain ⟨m2, e2⟩ := dceFileSim_of_ok b.pre hd m1 eager (by rw [e1]; exact hdef)
+    exact ⟨m2, by rw [e2, e1]⟩
+
 /-! ## non-vacuity: three real Core dumps (closure + generic + match; `Lemmas/PipeExamples.lean`) -/
 section Examples
 open Examples
@@ -302,6 +339,17 @@ example : ∃ G, compileGoPre e2e4 = some G ∧ ∃ m, Goml.Go.runGo m G "main" 
   | none => exact absurd h (by decide +kernel)
   | some G =>
     exact ⟨G, rfl, core_to_go_preserves e2e4 G h (by decide +kernel) 200 true
+      (Or.inr ⟨"integer divide by zero", by decide +kernel⟩)⟩
+/-- the same program is inside the fragment of `core_to_emitted_go_preserves` (the compiled file
+    satisfies the DCE contract); the compiled `gomlmodel` runs the emitted file to `b15`, then the
+    division-by-zero panic, like the Core program (the kernel does not: `Go.Sem` on a whole file with
+    its runtime functions is too large a term for `decide`) -/
+example : InEmitFragment e2e4 := by decide +kernel
+example : ∃ G, compileGo e2e4 = some G ∧ ∃ m, Goml.Go.runGo m G "main" true = run 200 e2e4.pipe.prog := by
+  cases h : compileGo e2e4 with
+  | none => exact absurd h (by decide +kernel)
+  | some G =>
+    exact ⟨G, rfl, core_to_emitted_go_preserves e2e4 G h (by decide +kernel) 200 true
       (Or.inr ⟨"integer divide by zero", by decide +kernel⟩)⟩
 /-- the earlier examples use enums / `Ref`, which the back end's fragment does not cover yet -/
 example : ¬ InE2EFragment { pipe := ex1 } := by decide +kernel
